@@ -7,7 +7,7 @@
    (outer)  every triangle lies within the allowed distance of the path - decided per triangle by finding
             one segment of the path (or one of its points) all three vertices are close to, and lifted to
             every point of the triangle by convexity of the distance to a segment. *)
-From Coq Require Import QArith Qminmax Qabs.
+From Coq Require Import QArith Qminmax Qabs Qround.
 From LV Require Import Base.Prelude Model.Bezier Model.Winding Checker.Region.
 Open Scope Q_scope.
 
@@ -17,23 +17,71 @@ Definition in_polygons (ps : list polygon) (p : qpt) : bool := existsb (fun r =>
 Definition sub_ok (ps : list polygon) (ts : list triangle) (p : qpt) : bool :=
   implb (in_polygons ps p) (covers ts p).
 
-Fixpoint scan_sub (ps : list polygon) (ts : list triangle) (y : Q) (xs : list Q) : list Q :=
+(* a rational with few bits strictly between lo and hi (lo < hi): the dyadic m / 2^k with the smallest k
+   (up to 64), else the midpoint.  Evaluating the two sides of the property at such points instead of at
+   the breakpoints themselves keeps the numbers small. *)
+Fixpoint simple_between_aux (fuel : nat) (k : Z) (lo hi : Q) : Q :=
+  match fuel with
+  | O => Qred ((lo + hi) / 2)
+  | S f =>
+      let s := inject_Z (2 ^ k) in
+      let c := Qred (inject_Z (Qfloor (lo * s) + 1) / s) in
+      if Qltb c hi then c else simple_between_aux f (k + 1) lo hi
+  end.
+Definition simple_between (lo hi : Q) : Q := simple_between_aux 64 0 lo hi.
+
+(* both sides are constant on (lo, hi] when no breakpoint lies strictly inside: one representative per
+   interval between consecutive breakpoints *)
+Fixpoint scan_simple (ps : list polygon) (ts : list triangle) (y : Q) (lo : Q) (xs : list Q) : list Q :=
   match xs with
   | [] => []
-  | x :: rest => (if sub_ok ps ts (x, y) then [] else [x]) ++ scan_sub ps ts y rest
+  | x :: rest =>
+      (if Qltb lo x
+       then let r := simple_between lo x in if sub_ok ps ts (r, y) then [] else [r]
+       else [])
+      ++ scan_simple ps ts y x rest
   end.
 
-(* the abscissae of the line at which the must region is not covered; [] = the whole line is fine *)
+(* the abscissae (representatives) at which the must region is not covered; [] = the whole line is fine *)
 Definition check_line_sub (ps : list polygon) (ts : list triangle) (y : Q) : list Q :=
   let xs := sort_q (breakpoints y (concat ps) ts) in
-  let beyond := match xs with [] => 0 | _ => last xs 0 + 1 end in
-  scan_sub ps ts y xs ++ (if sub_ok ps ts (beyond, y) then [] else [beyond]).
+  match xs with
+  | [] => if sub_ok ps ts (0, y) then [] else [0]
+  | x1 :: rest =>
+      let first := inject_Z (Qfloor x1 - 1) in
+      let beyond := inject_Z (Qfloor (last xs 0) + 2) in
+      (if sub_ok ps ts (first, y) then [] else [first])
+      ++ scan_simple ps ts y x1 rest
+      ++ (if sub_ok ps ts (beyond, y) then [] else [beyond])
+  end.
 
-Definition sub_ys (ps : list polygon) (ts : list triangle) : list Q := scan_ys (concat ps) ts.
+(* one line strictly inside every slab between consecutive distinct vertex ordinates *)
+Fixpoint between_consecutive (l : list Q) : list Q :=
+  match l with
+  | a :: ((b :: _) as r) => (if Qltb a b then [simple_between a b] else []) ++ between_consecutive r
+  | _ => []
+  end.
+Definition sub_ys (ps : list polygon) (ts : list triangle) : list Q :=
+  between_consecutive (vertex_ys (concat ps) ts).
 
-(* all scanned lines: (y, x) of every uncovered must point found *)
-Definition check_sub (ps : list polygon) (ts : list triangle) : list (Q * Q) :=
-  flat_map (fun y => map (fun x => (y, x)) (check_line_sub ps ts y)) (sub_ys ps ts).
+(* every k-th element (k >= 1), starting with the first *)
+Fixpoint every_from (k i : nat) (l : list Q) : list Q :=
+  match l with
+  | [] => []
+  | x :: r => match i with
+              | O => x :: every_from k (Nat.pred k) r
+              | S j => every_from k j r
+              end
+  end.
+(* at most about [budget] of the candidate lines, evenly spread *)
+Definition thin (budget : nat) (l : list Q) : list Q :=
+  every_from (S (Nat.div (length l) (S budget))) 0 l.
+
+(* the scanned lines: (y, x) of every uncovered must point found *)
+Definition check_sub_on (ys : list Q) (ps : list polygon) (ts : list triangle) : list (Q * Q) :=
+  flat_map (fun y => map (fun x => (y, x)) (check_line_sub ps ts y)) ys.
+Definition check_sub (budget : nat) (ps : list polygon) (ts : list triangle) : list (Q * Q) :=
+  check_sub_on (thin budget (sub_ys ps ts)) ps ts.
 
 (* ------------------------------------------------------------------ outer bound *)
 Definition tri_points (t : triangle) : list qpt := let '(a, b, c) := t in [a; b; c].
